@@ -54,6 +54,13 @@ func zzU256(b []byte) common.Uint256 {
 	return h
 }
 
+// zzNotZero: CompactMerkleTree uses the all-zero word as its "root not cached" marker, so Root()
+// compares the cached root with zero. A root that happened to be the zero word would only be recomputed
+// (to the same value); assuming it away keeps that comparison from forking on every Root() call.
+func zzNotZero(h common.Uint256) {
+	zzsym.Assume(h != EMPTY_HASH)
+}
+
 func zzLeaves(n int) [][]byte {
 	out := make([][]byte, n)
 	for i := range out {
@@ -84,10 +91,7 @@ func zzFlat(hs []common.Uint256) []byte {
 func ZZ_C06_AppendRoot() {
 	N := zzsym.Param("N")
 	size := zzsym.Choose("size", N+1)
-	extra := zzsym.Choose("extra", zzsym.Param("K")+1)
-	if size+extra > N {
-		return
-	}
+	extra := zzsym.Choose("extra", zzsym.Param("K")+1) // size+extra may exceed N by at most K
 	store := &memHashStore{}
 	tree := NewTree(0, nil, store)
 	v := NewMerkleVerifier()
@@ -99,6 +103,7 @@ func ZZ_C06_AppendRoot() {
 		zzsym.Assert(before == zzMTH(leaves[:i]), "predicting a root does not change the tree")
 		audit := tree.Append(leaves[i])
 		want := zzMTH(leaves[:i+1])
+		zzNotZero(want)
 		zzsym.Assert(tree.Root() == want, "root after appends = RFC 6962 MTH of all appended leaves")
 		zzsym.Assert(predicted == want, "root predicted for one extra leaf = root after appending it")
 		zzsym.Assert(tree.TreeSize() == uint32(i+1), "tree size counts the appended leaves")
@@ -120,6 +125,7 @@ func ZZ_C06_AppendRoot() {
 		zzSameHashes(hashesBefore, tree.Hashes()) && len(store.hashes) == storeBefore,
 		"predicting a root for extra leaves changes neither the tree nor its hash store")
 	all := append(append([][]byte(nil), leaves...), more...)
+	zzNotZero(zzMTH(all))
 	for i := range more {
 		tree.Append(more[i])
 	}
@@ -156,10 +162,7 @@ func ZZ_C06_AppendRoot_witness() {
 func ZZ_C06_Reload() {
 	N := zzsym.Param("N")
 	size := zzsym.Choose("size", N+1)
-	extra := zzsym.Choose("extra", zzsym.Param("K")+1)
-	if size+extra > N {
-		return
-	}
+	extra := zzsym.Choose("extra", zzsym.Param("K")+1) // size+extra may exceed N by at most K
 	store := &memHashStore{}
 	tree := NewTree(0, nil, store)
 	leaves := zzLeaves(size)
@@ -242,17 +245,9 @@ func zzBuild(leaves [][]byte, reload bool) *CompactMerkleTree {
 	return tree
 }
 
-func ZZ_C06_Proofs() {
-	N := zzsym.Param("N")
-	size := zzsym.Choose("size", N+1)
-	n := zzsym.Choose("n", N+1)
-	m := zzsym.Choose("m", N+1)
-	reload := zzsym.Choose("reload", 2) == 1
-	if n > size || m > n {
-		return
-	}
-	leaves := zzLeaves(size)
-	tree := zzBuild(leaves, reload)
+// zzCheckProofs checks every proof kind for one (m, n) pair on a tree that holds `leaves`.
+// withEmptyOld also asks for the consistency proof from old size 0.
+func zzCheckProofs(tree *CompactMerkleTree, leaves [][]byte, m, n int, withEmptyOld bool) {
 	v := NewMerkleVerifier()
 	rootN := zzMTH(leaves[:n])
 	rootM := zzMTH(leaves[:m])
@@ -271,7 +266,7 @@ func ZZ_C06_Proofs() {
 		val, err := MerkleProve(path, rootN[:])
 		zzsym.Assert(err == nil && bytes.Equal(val, leaves[m]), "leaf path is accepted by MerkleProve and yields the leaf")
 		zzsym.Cover("inclusion")
-		if n < size {
+		if n < len(leaves) {
 			zzsym.Cover("inclusion-earlier-size")
 		}
 	} else {
@@ -279,23 +274,49 @@ func ZZ_C06_Proofs() {
 		_, err2 := tree.MerkleInclusionLeafPath(nil, uint32(m), uint32(n))
 		zzsym.Assert(err != nil && err2 != nil, "no inclusion proof for an index outside the tree")
 	}
-	cproof := tree.ConsistencyProof(uint32(m), uint32(n))
-	zzsym.Assert(v.VerifyConsistency(uint32(m), uint32(n), rootM, rootN, cproof) == nil,
-		"consistency proof between any two sizes is accepted by VerifyConsistency")
+	if m >= 1 || withEmptyOld {
+		cproof := tree.ConsistencyProof(uint32(m), uint32(n))
+		zzsym.Assert(v.VerifyConsistency(uint32(m), uint32(n), rootM, rootN, cproof) == nil,
+			"consistency proof between any two sizes is accepted by VerifyConsistency")
+	}
 	if m > 0 && m < n {
 		zzsym.Cover("consistency")
 		if m&(m-1) != 0 {
 			zzsym.Cover("consistency-unbalanced-old")
 		}
 	}
-	if size < N {
-		_, err := tree.InclusionProof(0, uint32(size+1))
-		zzsym.Assert(err != nil && tree.ConsistencyProof(0, uint32(size+1)) == nil, "no proofs for a size the tree has not reached")
-	}
+	_, err := tree.InclusionProof(0, uint32(len(leaves)+1))
+	zzsym.Assert(err != nil && tree.ConsistencyProof(1, uint32(len(leaves)+1)) == nil, "no proofs for a size the tree has not reached")
+}
+
+func ZZ_C06_Proofs() {
+	N := zzsym.Param("N")
+	size := zzsym.Choose("size", N+1)
+	n := zzsym.Choose("n", size+1)
+	m := zzsym.Choose("m", n+1)
+	reload := zzsym.Choose("reload", 2) == 1
+	leaves := zzLeaves(size)
+	tree := zzBuild(leaves, reload)
+	// old size 0 on the in-memory store: see ZZ_C06_ConsistencyFromEmpty
+	zzCheckProofs(tree, leaves, m, n, false)
 	if reload {
 		zzsym.Cover("proofs-after-reload")
 	}
 	zzsym.Cover("proofs-done")
+}
+
+// Old size 0 (the empty tree) is a size too: ConsistencyProof(0, n) must return a proof (any) that
+// VerifyConsistency accepts, without panicking. Here on memHashStore; the same on the file store is
+// part of ZZ_C06_FileStore.
+func ZZ_C06_ConsistencyFromEmpty() {
+	N := zzsym.Param("N")
+	n := zzsym.Choose("n", N+1)
+	leaves := zzLeaves(n)
+	tree := zzBuild(leaves, false)
+	cproof := tree.ConsistencyProof(0, uint32(n))
+	zzsym.Assert(NewMerkleVerifier().VerifyConsistency(0, uint32(n), zzMTH(nil), zzMTH(leaves), cproof) == nil,
+		"consistency proof from the empty tree to any size is accepted by VerifyConsistency")
+	zzsym.Cover("from-empty-done")
 }
 
 // Witness twin: the proof for leaf m must not be forced to verify for a different leaf value.
@@ -313,12 +334,6 @@ func ZZ_C06_Proofs_witness() {
 // ---------------------------------------------------------------------------------------------
 func ZZ_C06_BitHelpers() {
 	x := zzsym.U32("x")
-	// popcount as a term
-	pc := uint(0)
-	for i := uint(0); i < 32; i++ {
-		pc += uint((x >> i) & 1)
-	}
-	zzsym.Assert(countBit(x) == pc, "countBit = number of set bits")
 	hb := highBit(x)
 	zzsym.Assert(hb <= 32, "highBit is at most 32")
 	zzsym.Assert((x == 0) == (hb == 0), "highBit is 0 exactly for 0")
@@ -330,8 +345,24 @@ func ZZ_C06_BitHelpers() {
 	if lb > 0 {
 		zzsym.Assert((x>>(lb-1))&1 == 1 && x&((uint32(1)<<(lb-1))-1) == 0, "lowBit is the 1-based position of the lowest set bit")
 	}
-	zzsym.Assert(isPower2(x) == (x != 0 && x&(x-1) == 0), "isPower2 recognises exactly the powers of two")
 	zzsym.Cover("bits-done")
+}
+
+// countBit against the bit-sum specification for every argument below 2^W (one path per result value),
+// isPower2 for the same arguments.
+func ZZ_C06_CountBit() {
+	W := uint(zzsym.Param("W"))
+	x := zzsym.U32("x")
+	if W < 32 {
+		zzsym.Assume(x>>W == 0)
+	}
+	pc := uint(0)
+	for i := uint(0); i < W; i++ {
+		pc += uint((x >> i) & 1)
+	}
+	zzsym.Assert(countBit(x) == pc, "countBit = number of set bits")
+	zzsym.Assert(isPower2(x) == (x != 0 && x&(x-1) == 0), "isPower2 recognises exactly the powers of two")
+	zzsym.Cover("countbit-done")
 }
 
 func ZZ_C06_BitHelpers_witness() {
